@@ -781,6 +781,11 @@ def _(it, a, info):
     p = deref(it, a[1])
     if z3.is_bv(p):
         return z3.simplify(z3.And(z3.UGE(s.len, 1), z3.ZeroExt(24, s.at(0)) == p))
+    if isinstance(p, (FnItem,)) or (isinstance(p, Struct) and p.ty.startswith('{closure@')):
+        pred = char_pred_from(it, p)
+        if it.ctx.branch(s.len == 0):
+            return z3.BoolVal(False)
+        return z3.simplify(pred(s.at(0)))
     pc = as_slice(it, p).concrete()
     if pc is None:
         raise Unsupported('starts_with symbolic pattern')
@@ -1117,7 +1122,7 @@ def _(it, a, info):
     return parse_uint(it, as_slice(it, a[0]), 64, r)
 
 
-@model('<str as Index>::index', '<str as IndexMut>::index_mut', '<[slice] as Index>::index', '<[slice] as IndexMut>::index_mut',
+@model('<[array] as IndexMut>::index_mut', '<[array] as Index>::index_', '<str as Index>::index', '<str as IndexMut>::index_mut', '<[slice] as Index>::index', '<[slice] as IndexMut>::index_mut',
        '<Vec as Index>::index', '<Vec as IndexMut>::index_mut', '<[array] as Index>::index', '<String as Index>::index')
 def _index(it, a, info):
     v = deref(it, a[0])
@@ -1381,7 +1386,7 @@ def _(it, a, info):
         t = c.decode('latin1')
         tl = t.lower()
         sign = ''
-        if tl[:1] in '+-':
+        if tl[:1] and tl[0] in '+-':
             sign, tl = tl[0], tl[1:]
         if tl == 'nan':
             return Ok(F32('nan'))
@@ -2657,3 +2662,28 @@ def _(it, a, info):
     if m == 'abs_diff':
         return duration_ns(S(z3.If(z3.ULT(x, y), y - x, x - y)))
     raise Unsupported('Duration::' + m)
+
+
+
+@model('RangeInclusive::new')
+def _(it, a, info):
+    return Struct('RangeInclusive', [a[0], a[1]])
+
+
+@model('RangeInclusive::contains', 'Range::contains', 'RangeFrom::contains', 'RangeTo::contains', 'RangeToInclusive::contains')
+def _(it, a, info):
+    r = deref(it, a[0])
+    x = deref(it, a[1])
+    ty = r.ty
+    S = z3.simplify
+    if ty == 'RangeInclusive':
+        return S(z3.And(z3.ULE(r.fields[0], x), z3.ULE(x, r.fields[1])))
+    if ty == 'Range':
+        return S(z3.And(z3.ULE(r.fields[0], x), z3.ULT(x, r.fields[1])))
+    if ty == 'RangeFrom':
+        return S(z3.ULE(r.fields[0], x))
+    if ty == 'RangeTo':
+        return S(z3.ULT(x, r.fields[0]))
+    if ty == 'RangeToInclusive':
+        return S(z3.ULE(x, r.fields[0]))
+    raise Unsupported('contains on ' + ty)
